@@ -246,6 +246,8 @@ class ParallelRunner(SimpleRunner):
                 model, spec = run.run_model(cases)
             nt = 0
             for c, o, m, s in zip(cases, impl, model, spec):
+                if o.endswith('SKIPPED'):
+                    continue
                 res.evaluations += 1
                 if fam == 'par_x':
                     if exact and not m.startswith('accept') and 'HANG' not in o and 'PANIC' not in o:
@@ -308,7 +310,7 @@ PROPS['C08'] = dict(
     theorems=[],
     runner=ParallelRunner(quick=[('par_x', 1500), ('par_y', 500)], thorough=[('par_x', 40000), ('par_y', 10000)],
                           which={'terminate'}),
-    rule='same runs as C07 under a 20 s watchdog per call and a thread census (with grace period) after each call; '
+    rule='same runs as C07 under a 8 s watchdog per call and a thread census (with grace period) after each call; '
          'consumer plans: drain / stop after k for every k / never ask; reader error; reader- and data-set-init failures',
     assumptions=ASSUME_PAR,
 )
@@ -480,8 +482,6 @@ PROPS['C10']['theorems'] = ['write_to_roundtrip', 'write_parts_roundtrip', 'writ
 # from its module is reported, see run.prove)
 import json as _json, os as _os
 _req = _json.load(open(_os.path.join(run.LEAN, 'REQUIRED_THEOREMS.json')))
-for _k, _v in PROPS.items():
-    _v['theorems'] = _req.get(_k, [])
 
 
 def alloc(case, toks, log, items):
@@ -520,5 +520,22 @@ PROPS['C20'] = dict(
          'iterators and owned-record iterators of both formats driven past their end',
     assumptions=[],
 )
+
+
+def views(case, toks, log, items):
+    v = oracles.views_oracle(case, toks)
+    if v.failures:
+        return v
+    # owned copies and records taken from record sets expose the values S prescribes
+    v2 = oracles.history_oracle(case, toks, items, positions=False, err_fields=False, sets=True)
+    v2.nontrivial = v2.nontrivial or v.nontrivial
+    return v2
+
+
+PROPS['C13']['runner'] = ReaderRunner(
+    quick=[('fa_rand', 10000), ('fq_rand', 10000), ('fa_hist', 3000), ('fq_hist', 3000)],
+    thorough=[('fa_rand', 200000), ('fq_rand', 200000), ('fa_hist', 60000), ('fq_hist', 60000)],
+    oracle=views)
+
 for _k, _v in PROPS.items():
     _v['theorems'] = _req.get(_k, [])
